@@ -17,7 +17,8 @@ RULE = ("random grammars (ambiguous, epsilon productions, left recursion) x all 
         "get_leftmost/rightmost_derivation of such a tree is validated step by step; non-members must raise the "
         "documented exception (recursive descent: judged only on grammars without epsilon productions, unit cycles and "
         "left/right-recursive variables, under a step budget). Non-trivial: the grammar has >=2 productions and a "
-        "member word of length >=2; distinct = case hash." % N)
+        "member word of length >=2; distinct = case hash." % N +
+        ' Later additions: derivation listings also from inner nodes and repeated; LL(1) nullable tails; print-alike and blank-containing terminals; words in several forms.')
 ASSUMPTIONS = ["the empty word is not judged for the normal-form tree",
                "RecursionError / budget overrun of the recursive-descent parser on left/right-recursive grammars is "
                "documented behaviour: counted, not judged"]
